@@ -923,6 +923,12 @@ class NetworkGraph(AbstractBaseIR):
                     # result that numpy's dot gives for a 2D matrix times a scalar.
                     weight_mat = weight_mat.squeeze(axis=1)
                     eq = f"{t_str_final} = {w_str} * {s_str_final}"
+                elif len(tidx_unique) == 1:
+                    # Single-target: a (1, n_sources) matrix times the source vector has shape (1,), which
+                    # cannot be assigned to the single (scalar-indexed) target slot. Use a 1D weight vector
+                    # so that the product is the scalar sum over all sources.
+                    weight_mat = weight_mat.squeeze(axis=0)
+                    eq = f"{t_str_final} = matvec({w_str}, {s_str_final})"
                 else:
                     eq = f"{t_str_final} = matvec({w_str}, {s_str_final})"
                 args[w_str] = {'vtype': 'constant', 'value': weight_mat, 'dtype': 'float', 'shape': weight_mat.shape}
